@@ -63,6 +63,13 @@ func judge(c *Case, dir string) (violation string, nontrivial bool) {
 		}
 		defer disk.MakeWritable(root)
 	}
+	return judgeBuilt(c, root)
+}
+
+// judgeBuilt scans an already materialised root and compares the snapshot with
+// the independent walk (performed by the same process, hence with the same
+// access rights).
+func judgeBuilt(c *Case, root string) (violation string, nontrivial bool) {
 	observed, err := disk.Observe(root)
 	if err != nil {
 		return "", false
